@@ -288,7 +288,8 @@ def missing_file_const():
     raise GenError('nbdime/utils.py: EXPLICIT_MISSING_FILE (posix) not found')
 
 
-def main():
+def render():
+    """text of Gen/ServerFacts.v for the current working tree of REPO"""
     tree = ast.parse(open(os.path.join(REPO, SRC)).read())
     f = translate(tree)
     f['explicit_missing'] = missing_file_const()
@@ -318,7 +319,11 @@ def main():
     L.append('Definition merge_arg_names : list pystr := %s.' % coq_list(sstr(x) for x in f['merge_args']))
     L.append('Definition difftool_fail_on_empty : bool := %s.' % coq_bool(f['difftool_fail_on_empty']))
     L.append('Definition mergetool_fail_on_empty : bool := %s.' % coq_bool(f['mergetool_fail_on_empty']))
-    write_if_changed('ServerFacts.v', '\n'.join(L) + '\n')
+    return '\n'.join(L) + '\n'
+
+
+def main():
+    write_if_changed('ServerFacts.v', render())
 
 
 if __name__ == '__main__':
